@@ -1107,4 +1107,42 @@ Proof.
     match goal with Hd2 : set_unlock_schedule_v2 _ _ _ = Ok _ |- _ => unfold set_unlock_schedule_v2 in Hd2; mon_inv end.
     first [exact Hrt|reflexivity].
 Qed.
+
+(** C12, last sentence, from deployment: after the three stages the number of winners is
+    min(winners configured at deployment, confirmed tickets) *)
+Theorem deployed_final_winners v w0 lf wf ef bf w1 ls ws es bs w2 sd rest ld wd ed bd w3 :
+  guar v -> setup_reach_gt H v w0 ->
+  after_interrupted filter_tickets lf w0 = Some wf -> filter_tickets ef bf wf = Ok (w1, 0) ->
+  seeds w1 = sd :: rest ->
+  after_interrupted (select_winners H) ls w1 = Some ws -> select_winners H es bs ws = Ok (w2, 0) ->
+  after_interrupted (distribute_guaranteed_tickets H (vflag v)) ld w2 = Some wd ->
+  distribute_guaranteed_tickets H (vflag v) ed bd wd = Ok (w3, 0) ->
+  exists e lp tpt0 ptok price0 nrw conf wsr claim x s (l : list (N * N)),
+    deploy v e lp tpt0 ptok price0 nrw conf wsr claim x = Ok s /\
+    nr_winning (st w3) = N.min nrw (sumN (map (confirmed (st w0)) (map fst l))) /\
+    count_winning (st w3) (range_ids 1 (sumN (map (confirmed (st w0)) (map fst l)))) = nr_winning (st w3).
+Proof.
+  intros Hv Hr Haf Ef Hs Has Es Had Ed.
+  destruct (setup_reach_gt_total v w0 Hv Hr) as (e & lp & tpt0 & ptok & price0 & nrw & conf & wsr & claim & x & s & Hd & Hrt).
+  destruct (setup_reach_gt_PreG H v w0 Hv Hr) as [l [[Hsel _ _] Hg]].
+  pose proof (setup_reach_gt_LpInv H v w0 Hv Hr) as [_ _ (Hres & _) _ _ _ _].
+  exists e, lp, tpt0, ptok, price0, nrw, conf, wsr, claim, x, s, l. split; [exact Hd|].
+  destruct (pipeline_gt H (vflag v) l w0 lf wf ef bf w1 ls ws es bs w2 sd rest ld wd ed bd w3 Hsel Hg Haf Ef Hs Has Es Had Ed)
+    as (_ & (Hc3 & Hn3 & _ & _) & _ & _).
+  destruct (pipeline_to_claims H l w0 lf wf ef bf w1 ls ws es bs w2 sd rest Hsel Haf Ef Hs Has Es)
+    as (_ & _ & Hlast2 & Hn2 & _). cbn zeta in Hn2.
+  (* the first two stages do not touch the reservations *)
+  pose proof Hsel as [Hop0 _ _ _ _ _ _ _].
+  assert (Hfok : filter_op_ok (st w0)) by (unfold filter_op_ok; rewrite Hop0; exact I).
+  rewrite (filter_multi_resume lf w0 wf ef bf Hfok Haf) in Ef.
+  destruct (filter_tickets_only _ _ _ _ Ef) as ((rg & ba & nw & la & fs & Hs1) & _).
+  rewrite (select_multi_resume H ls w1 ws es bs Has) in Es.
+  assert (Hop1 : op (st w1) = OpNone) by (rewrite Hs1; reflexivity).
+  destruct (select_winners_only H _ _ _ _ Hop1 Es) as ((f2 & g2 & Hs2) & _).
+  assert (Hres2 : total_reserved (vflag v) (st w2) = total_reserved (vflag v) (st w0)).
+  { unfold total_reserved, reserved. rewrite Hs2, Hs1. reflexivity. }
+  unfold reserve_total in Hrt. rewrite Hres in Hrt.
+  rewrite Hlast2 in Hn3, Hc3. split; [|exact Hc3].
+  rewrite Hn3, Hres2, Hn2. lia.
+Qed.
 End HTotal.
